@@ -1,5 +1,6 @@
 import UralModel.Lemmas.C07Host
 import UralModel.Lemmas.C07Parser
+import UralModel.Lemmas.C07Bridge
 /-!
 # C07 — hostname and LRU-stem helpers agree with the URL-level functions
 
@@ -40,6 +41,29 @@ theorem irrelevant_labels_ascii :
     Gen.Normalize.irrelevantSubdomainPattern = "(?:^|(?<=\\.))(?:www\\d?|mobile|m)\\." ∧
     Gen.Normalize.irrelevantSubdomainAmpPattern = "(?:^|(?<=\\.))(?:www\\d?|mobile|amp|m)\\." := by
   decide
+
+/-! ## facts about the modelled parser and the two `PROTOCOL_RE` matchers (proved in
+`Lemmas/C07Parser.lean`, `Lemmas/C07Bridge.lean`; restated here so that the audit lists them) -/
+
+/-- `http:` in front of a scheme-relative URL does not change the host (modelled parser) -/
+theorem hostOfModel_scheme_relative (r : Str) :
+    hostOfModel ("http:".toList ++ '/' :: '/' :: r) = hostOfModel ('/' :: '/' :: r) :=
+  Ural.C07.hostOfModel_scheme_relative r
+
+/-- the two hand matchers of `PROTOCOL_RE` (C01's and C20's) are the same function -/
+theorem protoLen_eq (s : Str) : Ural.protoLen s = UrlParts.protoLen s := Ural.C07.protoLen_eq s
+
+/-- same host in the helper's string and in `normalize_url`'s string (modelled parser,
+percent-free cleaned URL) -/
+theorem same_host_model (c : Str) (h : '%' ∉ c) :
+    hostOfModel (ensureProtocol c httpStr) = hostOfModel (ensureHttp (Ural.Quote.upperQuoted c)) :=
+  Ural.C07.same_host_model c h
+
+/-- the hostname the modelled parser returns for a control-free, percent-free string is
+lower-case and control-free -/
+theorem cleanHost_of_model (s h : Str) (hp : '%' ∉ s) (hctl : stripControl s = s)
+    (hh : hostOfModel s = some h) (hstrip : strip h = h) : CleanHost h :=
+  Ural.C07.cleanHost_of_model s h hp hctl hh hstrip
 
 /-! ## `get_normalized_hostname` vs `normalize_url` -/
 
@@ -110,6 +134,64 @@ theorem edge_whitespace_witness :
     normHost id (ampOpts true) " www.a.com".toList = " www.a.com".toList ∧
     normalizeHostname id true " www.a.com".toList = "a.com".toList ∧
     ¬ CleanHost " www.a.com".toList := by decide
+
+theorem mem_dropWhile {α} {p : α → Bool} {l : List α} {x : α} (h : x ∈ l.dropWhile p) : x ∈ l :=
+  (List.dropWhile_suffix p).subset h
+
+theorem mem_strip {s : Str} {x : Char} (h : x ∈ strip s) : x ∈ s := by
+  unfold strip rstrip lstrip at h
+  rw [List.mem_reverse] at h
+  have := mem_dropWhile h
+  rw [List.mem_reverse] at this
+  exact mem_dropWhile this
+
+theorem mem_ensureHttp {c : Str} {x : Char} (h : x ∈ ensureHttp c) : x ∈ c ∨ x ∈ "http://".toList := by
+  unfold ensureHttp at h
+  split at h
+  · exact Or.inl h
+  · rcases List.mem_append.1 h with h | h
+    · exact Or.inr h
+    · exact Or.inl h
+
+/-- **the same with nothing assumed about the parser but the whitespace reading**, for URLs whose
+cleaned form holds no `%`: `hostOf` is the modelled parser, `parse` any function whose hostname is
+the modelled parser's (`hmodel`); "same host in both strings" and "the host is lower-case and
+control-free" are proved (`same_host_model`, `cleanHost_of_model`), `platform_aware=False`. -/
+theorem normalized_hostname_agrees_model (puny : Str → Str) (parse : Str → Option Parsed)
+    (amp infr : Bool) (url : Str) (p : Parsed)
+    (hpct : '%' ∉ strip (stripControl (if infr then infer url else url)))
+    (hp : parse (prepared id infr url).1 = some p)
+    (hmodel : p.hostname = hostOfModel (prepared id infr url).1)
+    (hws : ∀ h, p.hostname = some h → strip h = h) :
+    (normalizedHost puny parse id (ampOpts amp) infr url).map orNone
+      = some (orNone (getNormalizedHostname puny hostOfModel amp infr url)) := by
+  have hc : stripControl (strip (stripControl (if infr then infer url else url)))
+      = strip (stripControl (if infr then infer url else url)) := by
+    apply stripControl_eq_self_iff.2
+    intro c hc
+    have := mem_strip hc
+    unfold stripControl at this
+    simpa using (List.mem_filter.1 this).2
+  have hprep : (prepared id infr url).1 =
+      ensureHttp (strip (stripControl (if infr then infer url else url))) := by
+    show ensureHttp (Ural.Quote.upperQuoted (strip (stripControl (if infr then infer url else url)))) = _
+    rw [upperQuoted_of_no_pct _ hpct]
+  apply normalized_hostname_agrees puny parse hostOfModel id amp infr url p hp
+  · rw [hmodel, hprep]
+    exact hostOfModel_ensureProtocol _
+  · intro h hh
+    rw [hmodel, hprep] at hh
+    refine cleanHost_of_model _ h ?_ ?_ hh (hws h (by rw [hmodel, hprep]; exact hh))
+    · intro hm
+      rcases mem_ensureHttp hm with hm | hm
+      · exact hpct hm
+      · revert hm; decide
+    · apply stripControl_eq_self_iff.2
+      intro c hcm
+      rcases mem_ensureHttp hcm with hm | hm
+      · exact stripControl_eq_self_iff.1 hc c hm
+      · have : ∀ x ∈ "http://".toList, isControlChar x = false := by decide
+        exact this c hm
 
 /-- non-vacuity: a clean host with an irrelevant label, an `amp-` prefix and a label in punycode
 spelling (identity decoder) -/
@@ -183,34 +265,6 @@ theorem fingerprinted_hostname_agrees (E : Env) (hostOf : Str → Option Str) (s
         simp only [orNone, List.isEmpty_cons, Bool.false_eq_true, if_false]
 
 /-! ## bare hostnames -/
-
-theorem isControlChar_lowerChar (c : Char) : isControlChar (lowerChar c) = isControlChar c := by
-  unfold lowerChar
-  split
-  · rename_i h
-    have h1 : 65 ≤ c.toNat := by have := (Ural.Py.char_le_iff 'A' c).1 h.1; simpa using this
-    have h2 : c.toNat ≤ 90 := by have := (Ural.Py.char_le_iff c 'Z').1 h.2; simpa using this
-    have h3 : (Char.ofNat (c.toNat + 32)).toNat = c.toNat + 32 :=
-      Ural.Py.toNat_ofNat_small _ (by omega)
-    unfold isControlChar
-    rw [h3]
-    have e1 : decide (c.toNat + 32 ≤ 0x1f) = false := decide_eq_false (by omega)
-    have e2 : decide (0x7f ≤ c.toNat + 32) = false := decide_eq_false (by omega)
-    have e3 : decide (c.toNat ≤ 0x1f) = false := decide_eq_false (by omega)
-    have e4 : decide (0x7f ≤ c.toNat) = false := decide_eq_false (by omega)
-    rw [e1, e2, e3, e4]
-    rfl
-  · rfl
-
-theorem mem_dropWhile {α} {p : α → Bool} {l : List α} {x : α} (h : x ∈ l.dropWhile p) : x ∈ l :=
-  (List.dropWhile_suffix p).subset h
-
-theorem mem_strip {s : Str} {x : Char} (h : x ∈ strip s) : x ∈ s := by
-  unfold strip rstrip lstrip at h
-  rw [List.mem_reverse] at h
-  have := mem_dropWhile h
-  rw [List.mem_reverse] at this
-  exact mem_dropWhile this
 
 /-- the cleaned form of a bare hostname is a bare hostname; it is what `normalize_hostname`
 starts from -/
@@ -483,34 +537,6 @@ example : minusScheme ⟨[], "a.com".toList, "/x".toList, [], some []⟩
     = lruStems (fun _ => none) false ⟨[], "a.com".toList, "/x".toList, [], []⟩ := by decide
 
 /-! ## `get_hostname` -/
-
-/-- `safe_urlsplit` and `ensure_protocol` hand the same string to the parser, except for a
-string that starts with `//`: there `ensure_protocol` adds `http:` and `safe_urlsplit` nothing -/
-theorem safeArg_cases (url : Str) :
-    safeUrlsplitArg url = ensureProtocol url httpStr ∨
-    (∃ r, url = '/' :: '/' :: r ∧ safeUrlsplitArg url = url ∧
-      ensureProtocol url httpStr = "http:".toList ++ url) := by
-  unfold safeUrlsplitArg ensureProtocol
-  cases hp : UrlParts.protoLen url with
-  | none => left; rfl
-  | some n =>
-    by_cases hs : startsWith url ['/', '/'] = true
-    · right
-      have : ∃ r, url = '/' :: '/' :: r := by
-        match url, hs with
-        | '/' :: '/' :: r, _ => exact ⟨r, rfl⟩
-        | [], h => simp [startsWith] at h
-        | [c], h => simp [startsWith, List.isPrefixOf] at h
-        | c :: d :: r, h =>
-          simp only [startsWith, List.isPrefixOf, Bool.and_eq_true, beq_iff_eq] at h
-          obtain ⟨rfl, rfl, _⟩ := h
-          exact ⟨r, rfl⟩
-      obtain ⟨r, rfl⟩ := this
-      refine ⟨r, rfl, by simp, ?_⟩
-      simp only [Option.isSome_some, hs, if_true]
-      rfl
-    · left
-      simp [hs]
 
 /-- **`get_hostname(u)` is the host the standard parser sees after a scheme is ensured** — for
 any parser for which `http:` in front of `//…` does not change the host of *this* `u` -/
